@@ -191,4 +191,42 @@ theorem reachable_inv {env : Env} {svc : Services} {P : Particle} {st : NetSt} (
   obtain ⟨es, hp⟩ := h
   exact inv_play es (inv_init env P) hp
 
+/-- a property of network states that holds initially, survives the removal of messages from the wire and any absorbed run,
+holds in every reachable state -/
+theorem reachable_induction {env : Env} {svc : Services} {P : Particle} (Q : NetSt → Prop)
+    (h0 : Q {}) (hwire : ∀ st w, List.Sublist w st.wire → Q st → Q { st with wire := w }) (habs : ∀ st r, Q st → Q (absorb st r))
+    {st : NetSt} (h : Reachable env svc P st) : Q st := by
+  obtain ⟨es, hp⟩ := h
+  have : ∀ (es : List Event) (s s' : NetSt), Q s → play env svc P s es = some s' → Q s' := by
+    intro es
+    induction es with
+    | nil => intro s s' hq hp; simp only [play] at hp; injection hp with hp; subst hp; exact hq
+    | cons e es ih =>
+      intro s s' hq hp
+      simp only [play] at hp
+      split at hp
+      · rename_i s1 hs
+        refine ih s1 s' ?_ hp
+        cases e with
+        | start =>
+          simp only [step] at hs
+          split at hs
+          · injection hs with hs; subst hs; exact habs _ _ hq
+          · cases hs
+        | deliver k dup =>
+          simp only [step] at hs
+          split at hs
+          · cases hs
+          · injection hs with hs; subst hs
+            cases dup with
+            | true => exact habs _ _ hq
+            | false => exact habs _ _ (hwire _ _ (List.eraseIdx_sublist ..) hq)
+        | answer q ids =>
+          simp only [step] at hs
+          split at hs
+          · cases hs
+          · injection hs with hs; subst hs; exact habs _ _ hq
+      · cases hp
+  exact this es {} st h0 hp
+
 end AquaProps.NetLift
